@@ -98,7 +98,10 @@ def gen_options(rng):
         max_per=rng.choice([1, 2, 3]),
         folds=rng.choice([2, 3, 3, 4, 5]),
         ensemble=rng.random() < 0.4,
-        pretrained=rng.choice([None, None, "fold-order", "reversed", "rotated"]),
+        pretrained=rng.choice([None, "fold-order", "reversed", "rotated"]),
+        # the rng of the call that re-uses trained fold models: fold membership is a function of the data alone, so
+        # another seed, no seed or an already advanced generator must still route every PSM to a model that has not seen it
+        reseed=rng.choice(["same", "other-int", "other-int", "none", "advanced-generator"]),
         workers=rng.choice([1, 1, 3]),
         cap=rng.choice([None, None, "mid"]),
         cpred=rng.choice([7, 23, 100000]),
@@ -154,7 +157,17 @@ def options_case(chk, rng, case=None):
                     elif case["pretrained"] == "rotated":
                         given = given[1:] + given[:1]
                     dss2 = [mkdata.read_dataset(d / f"in{j}.pin") for j in range(case["nfiles"])]
-                    _, models, scores, _ = mokapot.brew(dss2, given, ensemble=case["ensemble"], **kw)
+                    kw2 = dict(kw)
+                    how = case.get("reseed", "same")
+                    if how == "other-int":
+                        kw2["rng"] = case["seed"] + 1 + case["data_seed"] % 97
+                    elif how == "none":
+                        kw2["rng"] = None
+                    elif how == "advanced-generator":
+                        g2 = np.random.default_rng(case["seed"])
+                        g2.random(case["data_seed"] % 7 + 1)
+                        kw2["rng"] = g2
+                    _, models, scores, _ = mokapot.brew(dss2, given, ensemble=case["ensemble"], **kw2)
         except (IndexError, RuntimeError) as e:
             chk.reject("T2x-brew-refused:" + type(e).__name__); return
         except ValueError as e:
@@ -170,6 +183,8 @@ def options_case(chk, rng, case=None):
         chk.case(None, ("T2x", case["data_seed"], k, case["ensemble"], str(case["pretrained"]), case["nfiles"]),
                  sample=dict(kind="brew-options", **{a: str(b) for a, b in case.items()}))
         chk.count("T2x-ensemble", case["ensemble"]); chk.count("T2x-pretrained", str(case["pretrained"]))
+        if case["pretrained"] is not None:
+            chk.count("T2x-reuse-rng", case.get("reseed", "same"))
         chk.count("T2x-nfiles", case["nfiles"]); chk.count("T2x-workers", case["workers"])
         chk.count("T2x-folds", k); chk.count("T2x-cap", str(case["cap"]))
         info = dict(case=case)
